@@ -36,6 +36,8 @@ type Case struct {
 
 var objects = []struct{ obj, scope string }{
 	{"req", "recv"}, {"bereq", "miss"}, {"beresp", "fetch"}, {"obj", "error"}, {"resp", "deliver"},
+	// the same objects in the other scopes that may write them (each scope has its own Variable implementation)
+	{"bereq", "pass"}, {"bereq", "fetch"}, {"req", "deliver"}, {"resp", "log"}, {"req", "pass"},
 }
 
 var names = []string{"Foo", "fOO", "Bar"}
